@@ -128,7 +128,12 @@ func genFSR(r *rand.Rand, enc byte, n int) ([]byte, *ipmi.FullSensorRecord, stri
 	s := randIDString(r, enc, n)
 	v.Identity = string(s)
 	tl, idb := refcodec.IDString(enc, s)
-	return refcodec.FullSensorRecord(v, tl, idb, rbytes(r, 43)), v, "id-enc-" + string(rune('0'+enc))
+	rec := refcodec.FullSensorRecord(v, tl, idb, rbytes(r, 43))
+	if r.Intn(3) == 0 {
+		// bytes after the ID string (the optional OEM byte, or a longer record than the name needs)
+		rec = append(rec, rbytes(r, 1+r.Intn(3))...)
+	}
+	return rec, v, "id-enc-" + string(rune('0'+enc))
 }
 
 func specs() []layerSpec {
@@ -473,10 +478,11 @@ func specs() []layerSpec {
 }
 
 func dcmiVersion(r *rand.Rand) [2]uint8 {
-	return [][2]uint8{{1, 0}, {1, 1}, {1, 5}}[r.Intn(3)]
+	// only 1.0 has the old layout; everything else (earlier drafts, later majors) the current one
+	return [][2]uint8{{1, 0}, {1, 1}, {1, 5}, {1, 0}, {1, 1}, {1, 5}, {0, 9}, {0, 0}, {2, 0}, {3, 0}, {2, 1}, {15, 240}, {0, 1}}[r.Intn(13)]
 }
 
-func verLabel(v [2]uint8) string { return string(rune('0'+v[0])) + "." + string(rune('0'+v[1])) }
+func verLabel(v [2]uint8) string { return fmt.Sprintf("%d.%d", v[0], v[1]) }
 
 func specByName(n string) *layerSpec {
 	for _, s := range specs() {
